@@ -982,7 +982,7 @@ pub fn run_c06(sim: &Sim, prop: &str, tier: Tier) -> Outcome {
                     device_address: 0x0e0f,
                     data: fill_pattern(0, polls as u32, sim.pick(&[4usize, 20, 9])),
                 };
-                match crate::scenario::send(sim, "rx", &mut rx, &p) {
+                match crate::scenario::send_on(sim, "rx", &mut rx, &p, &wire) {
                     Err(Crash::Panic(m)) => return Outcome::Foreign("C14.exact", format!("sender panicked: {}", m)),
                     Err(Crash::Blocked) => return Outcome::Foreign("C14.term", "sender blocked".to_string()),
                     _ => {}
@@ -1260,7 +1260,7 @@ pub fn run_c19(sim: &Sim, prop: &str, tier: Tier) -> Outcome {
                 data: fill_pattern(0, polls as u32, sim.pick(&[4usize, 20, 60])),
             };
             let live_before_send = alloc::sut_live();
-            match crate::scenario::send(sim, "rx", &mut rx, &p) {
+            match crate::scenario::send_on(sim, "rx", &mut rx, &p, &wire) {
                 Err(Crash::Panic(m)) => return Outcome::Foreign("C14.exact", format!("sender panicked: {}", m)),
                 Err(Crash::Blocked) => return Outcome::Foreign("C14.term", "sender blocked".to_string()),
                 _ => {}
